@@ -3,7 +3,7 @@
 T=${1:-quick}; cd /verif
 for d in seeded/*/; do
   s=$(basename $d)
-  out=$(./tools/run_seed.sh $s $T 2>&1)
+  out=$(./tools/try_seed.sh $s $T 2>&1)
   rc=$(echo "$out" | grep -o 'rc=[0-9]*' | tail -1 | cut -d= -f2)
   first=$(echo "$out" | grep -m1 'violation in' | sed 's/^ *//' | cut -c1-300)
   python3 - "$d/meta.json" "$rc" "$first" "$T" <<'PY'
@@ -19,4 +19,4 @@ json.dump(m,open(p,'w'),indent=1)
 PY
   echo "$s rc=$rc"
 done
-git -C /repo status --short | grep -v _build
+
